@@ -6,9 +6,14 @@
     * `wsFilter`   = `WhitespaceFilter.__call__` (only in the chain when `strip_whitespace`)
     * `normWs`     = its two regular expressions `[ \t]+(?=\n)` → '' and `\n{2,}` → '\n'
     * `serToks`    = the main loops of `XMLSerializer`, `XHTMLSerializer`, `HTMLSerializer`
-  `NamespaceFlattener` is the identity on streams without namespaces.  The per-render caches
-  are not modelled (unobservable outside raw-text contexts: work package C09); the driver
-  does not answer for html without whitespace stripping when a raw-text element occurs.
+                     without the per-render event cache
+    * `serToksC`   = the same loops as they are written: with the event cache (`_prepare_cache`:
+                     `_get` / `_emit`), raw text bypassing it, and the `noescape` flag of
+                     `HTMLSerializer` kept in the cache-hit branch as in the uncached branches
+    * `serEncl`    = which text is escaped, said by the enclosing elements instead of a flag
+  `NamespaceFlattener` is the identity on streams without namespaces.  The driver runs
+  `serializeC`; `Lemmas/SubstCache.lean` shows `serToksC = serToks` (= `serEncl` when raw-text
+  elements have no element children).
 
   `emitText` / `emitAttr` are the few-line core the round-trip theorems are about.
 -/
@@ -158,14 +163,91 @@ def emitEmpty (m : Method) (t : Name) (attrs : List (Name × List Char)) : List 
       if (voidElems .html).contains t then '<' :: t ++ emitAttrs m attrs ++ ['>']
       else '<' :: t ++ emitAttrs m attrs ++ ['>'] ++ emitClose t
 
-/-- the serializer loop; `ne` is `noescape` of `HTMLSerializer` (never set by the other two) -/
+/-- the serializer loop without its event cache; `ne` is `noescape` of `HTMLSerializer` (never set
+    by the other two): set at the START of a raw-text element, cleared at every END, left alone
+    by EMPTY (an empty `<script></script>` does not switch escaping off) -/
 def serToks (m : Method) : Bool → List Tok → List Char
   | _, [] => []
   | ne, .text s true :: rest => s ++ serToks m ne rest                 -- a `Markup` is yielded as it is
   | ne, .text s false :: rest => (if ne then s else emitText m s) ++ serToks m ne rest
   | ne, .open t a :: rest => emitOpen m t a ++ serToks m (ne || (noescapeElems m).contains t) rest
-  | ne, .empty t a :: rest => emitEmpty m t a ++ serToks m (ne || (noescapeElems m).contains t) rest
+  | ne, .empty t a :: rest => emitEmpty m t a ++ serToks m ne rest
   | _, .close t :: rest => emitClose t ++ serToks m false rest
+
+/-! ### the loops as they are written: with the per-render event cache (`_prepare_cache`)
+
+  `_get((kind, data))` / `_emit(kind, data, output)`: a dictionary from events to the text written
+  for them the first time.  TEXT that is written raw (`noescape`, or a `Markup`) bypasses the
+  cache (`yield data; continue`).  `HTMLSerializer` keeps its `noescape` flag in BOTH branches:
+
+      output = _get((kind, data))
+      if output is not None:
+          yield output
+          if kind is START and data[0] in noescape_elems: noescape = True
+          elif kind is END:                               noescape = False
+      elif kind is START or kind is EMPTY: …; if kind is START and tag in noescape_elems: noescape = True
+      elif kind is END:                    …; noescape = False
+-/
+
+abbrev Cache := List (Tok × List Char)
+
+/-- `cache.get(key)`; `_emit` prepends, so the first hit is the latest entry -/
+def cacheGet : Cache → Tok → Option (List Char)
+  | [], _ => none
+  | (k', v) :: rest, k => if k' = k then some v else cacheGet rest k
+
+/-- what the uncached branch writes (and stores) for an event -/
+def emitTok (m : Method) : Tok → List Char
+  | .open t a => emitOpen m t a
+  | .empty t a => emitEmpty m t a
+  | .close t => emitClose t
+  | .text s _ => emitText m s
+
+def serToksC (m : Method) : Cache → Bool → List Tok → List Char
+  | _, _, [] => []
+  | c, ne, .text s f :: rest =>
+      if ne || f then s ++ serToksC m c ne rest                           -- raw: not cached
+      else match cacheGet c (.text s f) with
+        | some out => out ++ serToksC m c ne rest
+        | none => emitText m s ++ serToksC m ((.text s f, emitText m s) :: c) ne rest
+  | c, ne, .open t a :: rest =>
+      match cacheGet c (.open t a) with
+      | some out => out ++ serToksC m c (ne || (noescapeElems m).contains t) rest      -- cache hit: flag set here too
+      | none => emitOpen m t a ++
+          serToksC m ((.open t a, emitOpen m t a) :: c) (ne || (noescapeElems m).contains t) rest
+  | c, ne, .empty t a :: rest =>
+      match cacheGet c (.empty t a) with
+      | some out => out ++ serToksC m c ne rest
+      | none => emitEmpty m t a ++ serToksC m ((.empty t a, emitEmpty m t a) :: c) ne rest
+  | c, _, .close t :: rest =>
+      match cacheGet c (.close t) with
+      | some out => out ++ serToksC m c false rest                                       -- cache hit: flag cleared here too
+      | none => emitClose t ++ serToksC m ((.close t, emitClose t) :: c) false rest
+
+/-! ### which text is escaped, said without a flag: by the enclosing elements
+
+  `stack` = the elements open at this point, innermost first.  Text is written raw exactly when
+  the innermost open element is a raw-text element. -/
+
+def topRaw (m : Method) : List Name → Bool
+  | [] => false
+  | t :: _ => (noescapeElems m).contains t
+
+def serEncl (m : Method) : List Name → List Tok → List Char
+  | _, [] => []
+  | st, .text s f :: rest => (if f || topRaw m st then s else emitText m s) ++ serEncl m st rest
+  | st, .open t a :: rest => emitOpen m t a ++ serEncl m (t :: st) rest
+  | st, .empty t a :: rest => emitEmpty m t a ++ serEncl m st rest
+  | st, .close t :: rest => emitClose t ++ serEncl m st.tail rest
+
+/-- raw-text elements have no element children (the documented expectation of
+    `WhitespaceFilter`: "elements that cannot contain further child elements") -/
+def rawLeafGo (m : Method) : List Name → List Tok → Bool
+  | _, [] => true
+  | st, .text _ _ :: rest => rawLeafGo m st rest
+  | st, .open t _ :: rest => !topRaw m st && rawLeafGo m (t :: st) rest
+  | st, .empty _ _ :: rest => !topRaw m st && rawLeafGo m st rest
+  | st, .close _ :: rest => rawLeafGo m st.tail rest
 
 /-- `stream.render(method, strip_whitespace=strip, encoding=None)` for START/END/TEXT streams -/
 def serialize (m : Method) (strip : Bool) (evs : List Ev) : List Char :=
@@ -173,11 +255,10 @@ def serialize (m : Method) (strip : Bool) (evs : List Ev) : List Char :=
   let toks := if strip then wsFilter (preserveElems m) (noescapeElems m) 0 false [] toks else toks
   serToks m false toks
 
-/-- does the stream enter the zone of the serializer-cache defects (raw text with the cache
-    active)?  There the uncached model is not what the code does. -/
-def inCacheDefectZone (m : Method) (strip : Bool) (evs : List Ev) : Bool :=
-  !strip && evs.any fun e => match e with
-    | .start t _ => (noescapeElems m).contains t
-    | _ => false
+/-- the same with the event cache, empty at the start of a render -/
+def serializeC (m : Method) (strip : Bool) (evs : List Ev) : List Char :=
+  let toks := emptyTags evs
+  let toks := if strip then wsFilter (preserveElems m) (noescapeElems m) 0 false [] toks else toks
+  serToksC m [] false toks
 
 end Genshi.Subst
